@@ -1,11 +1,16 @@
 package main
 
 import (
+	"sync"
 	"encoding/json"
 	"fmt"
 	"math/rand"
 	"strings"
 	"time"
+
+	pb "google.golang.org/protobuf/proto"
+
+	"github.com/janelia-flyem/dvid/datatype/common/proto"
 
 	"verifharness/internal/ev"
 	"verifharness/internal/node"
@@ -28,6 +33,14 @@ type kvTraceDriver struct {
 	events []map[string]interface{}
 	script []string
 	dupOf  int
+	// growth (gaps C01-1, C01-3, C01-5): an unversioned instance next to the versioned one, a second
+	// repo, versions addressed by UUID prefix and by <root>:<branch>, protobuf batch writes
+	grow    bool
+	root    []int           // root node (1-based) of each node's repo
+	roots   []int           // root nodes of the repos of this trace
+	merged  map[int]bool    // repos (by root node) that hold a merge node
+	known   map[string]bool // every UUID ever seen on this server (for unambiguous prefixes)
+	counts  map[string]int
 }
 
 // newNum is the number recorded for the node just added.
@@ -47,17 +60,104 @@ func (d *kvTraceDriver) http(method, url string, body []byte) node.Resp {
 	return r
 }
 
+// addr returns how to name node nd in a URL: mostly the UUID, in growth mode sometimes its first
+// 8 characters (when no other UUID of the server starts with them).
+func (d *kvTraceDriver) addr(nd int) string {
+	u := d.uuids[nd-1]
+	if !d.grow || d.rng.Intn(4) != 0 {
+		return u
+	}
+	for o := range d.known {
+		if o != u && strings.HasPrefix(o, u[:8]) {
+			return u
+		}
+	}
+	d.counts["prefix-addressed"]++
+	return u[:8]
+}
+
+// kvRes maps the answer of GET key to the value id read (0 = not found, -1 = any failure).
+func kvRes(r node.Resp) int {
+	res := -1
+	if r.Status == 200 {
+		fmt.Sscanf(string(r.Bytes()), "v%d", &res)
+	} else if r.Status == 404 {
+		res = 0
+	}
+	return res
+}
+
+// growOp performs one of the growth requests; it reports whether it did.
+func (d *kvTraceDriver) growOp(keys []string, maxNodes int, newRepo func()) bool {
+	nd := 1 + d.rng.Intn(len(d.uuids))
+	key := keys[d.rng.Intn(3)]
+	switch k := d.rng.Intn(16); {
+	case k < 3: // write on the unversioned instance, at any version - committed or not
+		d.nextV++
+		r := d.http("POST", "/api/node/"+d.addr(nd)+"/kvu/key/"+key, []byte(fmt.Sprintf("v%d", d.nextV)))
+		d.ev(map[string]interface{}{"ev": "uput", "node": nd, "key": key, "val": d.nextV, "ok": r.Status == 200})
+		if d.locked[nd-1] {
+			d.counts["unversioned-write-at-committed-version"]++
+		}
+	case k < 4:
+		r := d.http("DELETE", "/api/node/"+d.addr(nd)+"/kvu/key/"+key, nil)
+		d.ev(map[string]interface{}{"ev": "udel", "node": nd, "key": key, "ok": r.Status == 200})
+	case k < 7:
+		r := d.http("GET", "/api/node/"+d.addr(nd)+"/kvu/key/"+key, nil)
+		d.ev(map[string]interface{}{"ev": "uget", "node": nd, "key": key, "res": kvRes(r)})
+		d.counts["unversioned-read"]++
+	case k < 12: // the versioned instance through <root>:<branch>
+		rt := d.root[nd-1]
+		br := d.branch[nd-1]
+		if br == "" && d.merged[rt] {
+			return false // which master version a repo with merge versions calls its head is left to C07
+		}
+		name := br
+		if br == "" {
+			name = "master"
+		}
+		a := d.uuids[rt-1] + ":" + name
+		if d.rng.Intn(3) == 0 {
+			a = d.uuids[rt-1][:10] + ":" + name
+		}
+		d.counts["branch-addressed"]++
+		switch d.rng.Intn(4) {
+		case 0:
+			d.nextV++
+			r := d.http("POST", "/api/node/"+a+"/kv/key/"+key, []byte(fmt.Sprintf("v%d", d.nextV)))
+			d.ev(map[string]interface{}{"ev": "putb", "root": rt, "branch": br, "key": key, "val": d.nextV, "ok": r.Status == 200})
+		case 1:
+			r := d.http("DELETE", "/api/node/"+a+"/kv/key/"+key, nil)
+			d.ev(map[string]interface{}{"ev": "delb", "root": rt, "branch": br, "key": key, "ok": r.Status == 200})
+		default:
+			r := d.http("GET", "/api/node/"+a+"/kv/key/"+key, nil)
+			d.ev(map[string]interface{}{"ev": "getb", "root": rt, "branch": br, "key": key, "res": kvRes(r)})
+		}
+	case k < 14: // POST keyvalues: a protobuf batch of two keys is two writes at one version
+		k2 := keys[d.rng.Intn(3)]
+		d.nextV += 2
+		body, _ := pb.Marshal(&proto.KeyValues{Kvs: []*proto.KeyValue{
+			{Key: key, Value: []byte(fmt.Sprintf("v%d", d.nextV-1))}, {Key: k2, Value: []byte(fmt.Sprintf("v%d", d.nextV))}}})
+		r := d.http("POST", "/api/node/"+d.addr(nd)+"/kv/keyvalues", body)
+		d.ev(map[string]interface{}{"ev": "put", "node": nd, "key": key, "val": d.nextV - 1, "ok": r.Status == 200})
+		d.ev(map[string]interface{}{"ev": "put", "node": nd, "key": k2, "val": d.nextV, "ok": r.Status == 200})
+		d.counts["batch-write"]++
+	default:
+		if len(d.roots) >= 2 || len(d.uuids) >= maxNodes {
+			return false
+		}
+		newRepo()
+	}
+	return true
+}
+
 func (d *kvTraceDriver) run(ops int, maxNodes int, restarts bool) {
-	r := d.http("POST", "/api/repos", []byte(`{"alias":"t"}`))
 	var o struct{ Root, Child string }
-	json.Unmarshal(r.Bytes(), &o)
-	d.uuids = []string{o.Root}
-	d.locked = []bool{false}
-	d.branch = []string{""}
-	d.kids = []int{0}
-	d.ev(map[string]interface{}{"ev": "newrepo", "new": 1})
-	d.http("POST", "/api/repo/"+o.Root+"/instance", []byte(`{"typename":"keyvalue","dataname":"kv"}`))
-	keys := []string{"k1", "k2", "k3"}
+	if d.known == nil {
+		d.known = map[string]bool{}
+	}
+	d.merged = map[int]bool{}
+	d.counts = map[string]int{}
 	addNode := func(u, br string, ps []int) {
 		d.dupOf = 0
 		for i, old := range d.uuids {
@@ -65,17 +165,42 @@ func (d *kvTraceDriver) run(ops int, maxNodes int, restarts bool) {
 				d.dupOf = i + 1 // a UUID handed out twice: the event carries the old number and is rejected
 			}
 		}
+		d.known[u] = true
 		d.uuids = append(d.uuids, u)
 		d.locked = append(d.locked, false)
 		d.branch = append(d.branch, br)
 		d.kids = append(d.kids, 0)
+		rt := len(d.uuids)
+		if len(ps) > 0 {
+			rt = d.root[ps[0]-1]
+		}
+		d.root = append(d.root, rt)
+		if len(ps) > 1 {
+			d.merged[rt] = true
+		}
 		for _, p := range ps {
 			d.kids[p-1]++
 		}
 	}
+	newRepo := func() {
+		r := d.http("POST", "/api/repos", []byte(`{"alias":"t"}`))
+		json.Unmarshal(r.Bytes(), &o)
+		addNode(o.Root, "", nil)
+		d.roots = append(d.roots, len(d.uuids))
+		d.ev(map[string]interface{}{"ev": "newrepo", "new": d.newNum()})
+		d.http("POST", "/api/repo/"+o.Root+"/instance", []byte(`{"typename":"keyvalue","dataname":"kv"}`))
+		if d.grow {
+			d.http("POST", "/api/repo/"+o.Root+"/instance", []byte(`{"typename":"keyvalue","dataname":"kvu","versioned":"false"}`))
+		}
+	}
+	newRepo()
+	keys := []string{"k1", "k2", "k3"}
 	for i := 0; i < ops; i++ {
+		if d.grow && d.rng.Intn(3) == 0 && d.growOp(keys, maxNodes, newRepo) {
+			continue
+		}
 		nd := 1 + d.rng.Intn(len(d.uuids))
-		u := d.uuids[nd-1]
+		u := d.addr(nd)
 		switch k := d.rng.Intn(20); {
 		case k < 6: // put
 			if d.locked[nd-1] && d.rng.Intn(4) != 0 {
@@ -83,7 +208,7 @@ func (d *kvTraceDriver) run(ops int, maxNodes int, restarts bool) {
 				open := d.openNodes()
 				if len(open) > 0 {
 					nd = open[d.rng.Intn(len(open))]
-					u = d.uuids[nd-1]
+					u = d.addr(nd)
 				}
 			}
 			d.nextV++
@@ -155,11 +280,23 @@ func (d *kvTraceDriver) run(ops int, maxNodes int, restarts bool) {
 						p = c[d.rng.Intn(len(c))]
 					}
 				}
+				if d.grow && len(ps) > 0 && d.root[p-1] != d.root[ps[0]-1] && d.rng.Intn(5) != 0 {
+					// mostly parents of one repo (a merge across repos must be refused)
+					var same []int
+					for q := range d.uuids {
+						if d.root[q] == d.root[ps[0]-1] && (d.locked[q] || d.rng.Intn(4) == 0) {
+							same = append(same, q+1)
+						}
+					}
+					if len(same) > 0 {
+						p = same[d.rng.Intn(len(same))]
+					}
+				}
 				ps = append(ps, p)
 				pu = append(pu, d.uuids[p-1])
 			}
 			body, _ := json.Marshal(map[string]interface{}{"mergeType": "conflict-free", "parents": pu})
-			r := d.http("POST", "/api/repo/"+d.uuids[0]+"/merge", body)
+			r := d.http("POST", "/api/repo/"+d.uuids[d.root[ps[0]-1]-1]+"/merge", body)
 			e := map[string]interface{}{"ev": "merge", "parents": ps, "ok": r.Status == 200}
 			if r.Status == 200 {
 				json.Unmarshal(r.Bytes(), &o)
@@ -185,6 +322,10 @@ func (d *kvTraceDriver) run(ops int, maxNodes int, restarts bool) {
 				res = 0
 			}
 			d.ev(map[string]interface{}{"ev": "get", "node": nd + 1, "key": key, "res": res})
+			if d.grow {
+				r := d.http("GET", "/api/node/"+d.uuids[nd]+"/kvu/key/"+key, nil)
+				d.ev(map[string]interface{}{"ev": "uget", "node": nd + 1, "key": key, "res": kvRes(r)})
+			}
 		}
 	}
 }
@@ -227,7 +368,7 @@ func eventsBytes(evs []map[string]interface{}) []byte {
 }
 
 func kvTraceCfg(allowDev bool) []byte {
-	return []byte(fmt.Sprintf("SPECIFICATION TSpec\nCONSTANTS\n  MaxNodes = 64\n  MaxRepos = 64\n  MaxParents = 3\n  Branches = {\"a\", \"b\"}\n  UUIDPool = {}\n  WithRejects = TRUE\n  LastFoundBug = FALSE\n  Keys = {\"k1\", \"k2\", \"k3\"}\n  AllowInnerMergeConflict = %s\nINVARIANTS Inv_C07\nPOSTCONDITION TraceAccepted\nCHECK_DEADLOCK FALSE\n",
+	return []byte(fmt.Sprintf("SPECIFICATION TSpec\nCONSTANTS\n  MaxNodes = 64\n  MaxRepos = 64\n  MaxParents = 3\n  Branches = {\"a\", \"b\"}\n  UUIDPool = {}\n  WithRejects = TRUE\n  LastFoundBug = FALSE\n  Keys = {\"k1\", \"k2\", \"k3\"}\n  AllowInnerMergeConflict = %s\nINVARIANTS Inv_C07\nPROPERTIES Act_C01_UnversionedIsolated\nPOSTCONDITION TraceAccepted\nCHECK_DEADLOCK FALSE\n",
 		map[bool]string{true: "TRUE", false: "FALSE"}[allowDev]))
 }
 
@@ -244,22 +385,42 @@ func validateKVTrace(c *Ctx, evs []map[string]interface{}, allowDev bool) (int, 
 // runKVTraces records nTraces random interleavings and validates them.  Returns the number of
 // traces and events validated.
 func runKVTraces(c *Ctx, run *ev.Run, nTraces, ops, maxNodes int, restarts bool, knownDev string) (int, int) {
+	return runKVTracesOpt(c, run, nTraces, ops, maxNodes, restarts, knownDev, false)
+}
+
+// runKVTracesOpt: with grow the traces also hold requests on an unversioned instance, a second
+// repo, versions addressed by UUID prefix and by <root>:<branch>, and protobuf batch writes.
+func runKVTracesOpt(c *Ctx, run *ev.Run, nTraces, ops, maxNodes int, restarts bool, knownDev string, grow bool) (int, int) {
 	traces := make([]kvTrace, nTraces)
+	var cmu sync.Mutex
+	counts := map[string]int{}
 	workers := 12
 	perNode := 25
 	nChunks := (nTraces + perNode - 1) / perNode
 	parallel(nChunks, workers, func(_, ci int) {
 		n := c.StartNode(node.Config{})
 		defer func() { c.DropNode(n) }()
+		known := map[string]bool{}
 		for t := ci * perNode; t < (ci+1)*perNode && t < nTraces; t++ {
 			seed := c.Seed*100000 + int64(t)
-			d := &kvTraceDriver{n: n, rng: rand.New(rand.NewSource(seed))}
+			d := &kvTraceDriver{n: n, rng: rand.New(rand.NewSource(seed)), grow: grow, known: known}
 			// every second chunk of traces has process restarts (clean / SIGKILL) sprinkled in, in both tiers
 			rs := restarts || ci%2 == 1
 			d.run(ops, maxNodes, rs)
 			traces[t] = kvTrace{restarts: rs, seed: seed, events: d.events, script: d.script}
+			cmu.Lock()
+			for k, v := range d.counts {
+				counts[k] += v
+			}
+			if len(d.roots) > 1 {
+				counts["traces-with-two-repos"]++
+			}
+			cmu.Unlock()
 		}
 	})
+	if grow {
+		run.Set("trace_growth_requests", counts)
+	}
 	var all []map[string]interface{}
 	nEvents := 0
 	for i, t := range traces {
@@ -282,7 +443,7 @@ func runKVTraces(c *Ctx, run *ev.Run, nTraces, ops, maxNodes int, restarts bool,
 			found = true
 			// reproduce: the same seed on a fresh node must be rejected at the same event
 			n := c.StartNode(node.Config{})
-			d := &kvTraceDriver{n: n, rng: rand.New(rand.NewSource(t.seed))}
+			d := &kvTraceDriver{n: n, rng: rand.New(rand.NewSource(t.seed)), grow: grow}
 			d.run(ops, maxNodes, t.restarts)
 			c.DropNode(n)
 			k2, ok2, _ := validateKVTrace(c, d.events, allowDev)
